@@ -14,7 +14,8 @@ SEP = '\x1f'
 
 # (ndebug, nocache, ngc, opt)
 def cfg_tag(c):
-    return '%s_%s_%s_%s' % ('N' if c[0] else 'd', 'C0' if c[1] else 'c', 'G0' if c[2] else 'g', c[3])
+    t = '%s_%s_%s_%s' % ('N' if c[0] else 'd', 'C0' if c[1] else 'c', 'G0' if c[2] else 'g', c[3])
+    return t + ('@' + c[4] if len(c) > 4 else '')
 
 
 def cfg_flags(c):
@@ -29,6 +30,11 @@ def cfg_flags(c):
 # different switches occurs together), including the all-on and the all-off build
 QUICK = [(0, 0, 0, 'O0'), (1, 1, 1, 'O0'), (0, 1, 1, 'O2'), (1, 0, 0, 'O2'), (0, 0, 1, 'O3'), (1, 1, 0, 'O3')]
 ALL = [(n, c, g, o) for o in ('O0', 'O2', 'O3') for n in (0, 1) for c in (0, 1) for g in (0, 1)]
+# beyond the property's matrix: further optimisation levels and a second compiler (when installed)
+EXTRA_QUICK = [(0, 0, 0, 'O2', 'clang'), (1, 1, 1, 'Os')]
+EXTRA_THOROUGH = [(0, 0, 0, 'O1'), (1, 1, 1, 'O1'), (0, 0, 0, 'Os'), (1, 1, 1, 'Os'),
+                  (0, 0, 0, 'O0', 'clang'), (0, 0, 0, 'O2', 'clang'), (0, 0, 0, 'O3', 'clang'), (1, 1, 1, 'O2', 'clang'),
+                  (1, 0, 0, 'O3', 'clang'), (0, 1, 1, 'O1', 'clang')]
 
 # ---------------------------------------------------------------------------------------------- workload generator
 NREG = 10
@@ -398,7 +404,9 @@ CORPUS_SEQ = [
 
 def run(ctx):
     quick = ctx.tier == 'quick'
-    cfgs = ALL
+    import shutil as _sh
+    extra = [c for c in (EXTRA_QUICK if quick else EXTRA_THOROUGH) if len(c) < 5 or _sh.which(c[4])]
+    cfgs = ALL + extra
     ctx.cov['rule'] = (
         'workload stream: seeded register-machine programs (3-7 constructors, then %s operations drawn from 69 kinds: '
         'Array/List/Table/Tree/Tuple/String/Int/Float/user-type construction, push/push_at/pop/pop_at/get/set/mem/rem/'
@@ -407,7 +415,8 @@ def run(ctx):
         'call, try/throw/catch with propagation through frames and through a non-matching inner handler, worker threads '
         '(own collector and exception context), Mutex, File write/reopen/read, Help documentation, show/look, raw and root allocation, instance queries, del/drop, forced collections) interpreted '
         'by harness/config_workload.c, which maps every argument into the contract of the call it makes; the library is '
-        'built in all 24 configurations of {checks, CELLO_NDEBUG} x {cache, CELLO_CACHE=0} x {GC, CELLO_NGC} x {O0,O2,O3}; '
+        'built in all 24 configurations of {checks, CELLO_NDEBUG} x {cache, CELLO_CACHE=0} x {GC, CELLO_NGC} x {O0,O2,O3} plus a few '
+        'beyond the matrix (-O1, -Os, clang when installed); '
         '%s; transcripts are compared byte for byte. A program is non-trivial when at least 8 operations had an effect '
         '(did not print "-"), of at least 5 different kinds, and no exception escaped; distinct = distinct transcripts. '
         'array stream: operation sequences on an Array of Int (in-contract in every build; with out-of-range indices only '
@@ -441,7 +450,7 @@ def run(ctx):
     # library builds: vlib compiles the sources of one build in parallel; two builds at a time
     def build(c):
         tag = cfg_tag(c)
-        ctx.build_lib(tag, cfg_flags(c))
+        ctx.build_lib(tag, cfg_flags(c), cc=(c[4] if len(c) > 4 else 'gcc'))
         return tag, ctx.build_harness('config_workload.c', tag=tag)
     with ThreadPoolExecutor(max_workers=2) as ex:
         for tag, h in ex.map(build, cfgs):
@@ -601,6 +610,7 @@ def run(ctx):
         ctx.cov['heap_programs'] = dh.ncases
     ctx.cov['operation_histogram'] = {k: '%d executed, %d with an effect' % (hist[k], effective[k]) for k in sorted(hist)}
     ctx.cov['configurations'] = all_tags
+    ctx.cov['configurations_beyond_the_matrix'] = [cfg_tag(c) for c in extra]
     ctx.cov['configurations_pairwise'] = pair_tags if quick else []
     ctx.cov['workload_programs'] = dw.ncases + dwp.ncases
     ctx.cov['workload_programs_on_all_24'] = dw.ncases
